@@ -1043,6 +1043,52 @@ def rule_X6(ctx, info):
         raise AnalysisError("X6: only %d explicit element types found in process_trace.map (expected the integer index tables)" % n)
 
 
+def rule_X7(ctx, info):
+    """The node attributes the MAP pipeline reads (`log_p`, `log_R`) are the tree's own arrays (the conversion to networkx
+    copies no payload).  A slot that was filled by plain assignment from another slot or name (`node["log_R_max"] =
+    node["log_p"]`) holds the *same* array: an augmented assignment on it afterwards (`+=`, `-=`) writes into the tree."""
+    from ..paths import enumerate_paths
+
+    prog = ctx.prog
+    ctx.rule("X7", "no in-place update of a table that aliases an input array: a slot / name bound by plain assignment from another slot is not then updated with an augmented assignment", 4)
+    mod = prog.module("phyclone.process_trace.map")
+    n = 0
+    for fi in prog.functions.values():
+        if fi.module is not mod:
+            continue
+        n += 1
+        bad = []
+        try:
+            paths_ = enumerate_paths(fi.node.body)
+        except AnalysisError:
+            paths_ = []
+        for steps, _oc in paths_:
+            alias = {}  # unparse(target) -> source text, for targets currently holding another slot's array
+            for st in steps:
+                node = st.node
+                if st.kind != "stmt" or not isinstance(node, ast.AST):
+                    continue
+                if isinstance(node, ast.Assign) and len(node.targets) == 1:
+                    t, v = node.targets[0], node.value
+                    if isinstance(t, (ast.Name, ast.Subscript, ast.Attribute)):
+                        if isinstance(v, (ast.Subscript, ast.Attribute)) and not (isinstance(v, ast.Subscript) and isinstance(v.slice, ast.Slice)) or (isinstance(v, ast.Name) and u(v) in alias):
+                            alias[u(t)] = u(v)
+                        else:
+                            alias.pop(u(t), None)
+                elif isinstance(node, ast.AugAssign):
+                    tt = u(node.target)
+                    base = u(node.target.value) if isinstance(node.target, ast.Subscript) and isinstance(node.target.slice, (ast.Slice, ast.Tuple, ast.Name, ast.Constant)) and u(node.target.value) in alias else None
+                    if tt in alias:
+                        bad.append((node, "`%s` holds the array of `%s` (plain assignment) and is then updated in place" % (tt, alias[tt])))
+                    elif base is not None and not (isinstance(node.target.slice, ast.Constant) and isinstance(node.target.slice.value, str)):
+                        bad.append((node, "`%s` is an element of `%s`, which holds the array of `%s`" % (tt, base, alias[base])))
+        seen = set()
+        bad = [(a, b) for a, b in bad if not (id(a) in seen or seen.add(id(a)))]
+        ctx.check(not bad, "X7", "%s updates in place only arrays of its own" % fi.name, fi.where(bad[0][0]) if bad else fi.where(), "; ".join(b for _, b in bad[:2]) + ": the array belongs to the tree's node (or to another table), which is changed by summarising it", construct=fi.qualname, stmt="in-place update of an aliased table")
+    if n < 4:
+        raise AnalysisError("X7: only %d functions found in process_trace.map" % n)
+
+
 def _handle(v):
     """Identity of a dictionary value: the abstract object itself, or the term that denotes it."""
     if isinstance(v, (ADict, AList)):
@@ -1212,6 +1258,7 @@ def run(ctx):
     ctx.soft(rule_X4, info)
     ctx.soft(rule_X5, info)
     ctx.soft(rule_X6, info)
+    ctx.soft(rule_X7, info)
     # the recursion and the traceback run on the networkx copy of the tree: it must hold every node (an edgeless
     # all-outlier tree included) with its payload (same rule object as C12.N1)
     from ..formula import imported
